@@ -505,6 +505,24 @@ def dfa_name_pairs(rng, quick):
     return pairs
 
 
+@check("C20.raw_json")
+def raw_json(item):
+    """write_json_to_file(obj, name) followed by read_bisc_file(name): the reader hands back exactly the integer
+    sequences that were written (as Perm objects with those entries) - it must not repair, standardise or reorder them.
+    Sequences that are not standard permutations (one-based, windows of a longer permutation, ties) included."""
+    label, obj = item
+    from permuta.bisc.bisc import write_json_to_file
+
+    with _tempcwd():
+        with contextlib.redirect_stdout(io.StringIO()):
+            write_json_to_file(obj, "raw_good_len3.json")
+        got, said = _read("raw_good_len3")
+    want = {int(k): [tuple(p) for p in v] for k, v in obj.items()}
+    if not isinstance(got, dict) or _plain(got) != want:
+        return bad(want, f"{_plain(got) if isinstance(got, dict) else got!r} (printed {said.strip()!r})", f"{label}: read_bisc_file after write_json_to_file")
+    return ok(any(sorted(p) != list(range(len(p))) for v in want.values() for p in v))
+
+
 ODD_NAMES = ("Av2.3.1", "run.1", "a.b", ".hidden", "x.json", "with space", "dash-and_underscore", "UPPER.lower.3",
              "sub.dir/plain", "sub.dir/dotted.name", "trailing.", "len3_good_len3", "\u00e9t\u00e9.v2")
 
@@ -552,6 +570,11 @@ def run(ctx):
     quick = ctx.tier == "quick"
     Perm = D.P()
     rng = D.subrng(ctx, "c20")
+    raws = [("standard", {"0": [[]], "1": [[0]], "2": [[0, 1], [1, 0]]}), ("one-based", {"2": [[1, 2], [2, 1]], "3": [[1, 3, 2]]}),
+            ("windows", {"3": [[5, 2, 7], [4, 9, 0]]}), ("ties", {"3": [[0, 0, 1], [2, 2, 2]]}), ("negative", {"2": [[-1, 0]]}),
+            ("gaps", {"4": [[0, 10, 20, 30], [30, 20, 10, 0]]}), ("empty lists", {"0": [], "5": []}), ("same twice", {"2": [[1, 0], [1, 0]]})]
+    ctx.run("C20.raw_json", raws, chunk=2,
+            rule="write_json_to_file / read_bisc_file round trip of 8 hand-made dictionaries incl. sequences that are not standard permutations")
     odd = [(info, n, dj, dec) for info in ODD_NAMES for n in (2, 3) for dj in range(len(DATASETS)) for dec in (False, True)]
     ctx.run("C20.bisc_names", odd, chunk=12,
             rule=f"{len(ODD_NAMES)} data-set names with dots, spaces, a directory part, a trailing dot ... x lengths 2, 3 x {len(DATASETS)} datasets, "
